@@ -123,8 +123,10 @@ def r3_2(cx):
         over_prefix = summed is not None and any(n.kind == 'agg' and n.info.get('variant') == 'RangeTo' and show(n.args[0].strip()) == show(cnt) for n in summed.walk())
         ok = is_call(cnt, 'Ord::min') and over_prefix and cn[0][1].kind == 'binop' and show(cn[0][1].b.strip()) == show(cnt)
         if ok and is_call(summed, 'Iterator::sum'):
-            cl = prog.closures_of(f)
-            ok = bool(cl) and is_call(cl[0].local_expr(0, []), 'len')
+            # the closure mapped over the prefix (whichever function it was written in) measures each slice
+            cls = [closure_of(prog, n) for n in summed.walk() if n.kind == 'agg' and n.info.get('ak') == 'closure']
+            cls = [c for c in cls if c is not None]
+            ok = len(cls) == 1 and is_call(cls[0].local_expr(0, []), 'len')
         elif ok:
             # the explicit spelling: acc = 0; for s in slices[..n].iter() { acc += s.len() }
             alts = [a.strip() for a in phi_alts(summed)]
